@@ -13,6 +13,7 @@ import random
 
 from . import lib
 from . import expr_common as X
+from . import expr_ref as XR
 
 RULE = ("arithmetic-heavy type-directed expression trees (constants, variables, nested and foldable subexpressions; depth "
         "<= 4 quick / 5 thorough) under every one of the 512 subsets of the 7 binary and 2 unary interceptable operators "
@@ -214,6 +215,168 @@ def lines_for(e, ds, ib, iu):
     return [f"eval {cfg} {sx} {X.enc_env(data)}", f"gen {cfg} {sx}", f"fold {cfg} {sx}"]
 
 
+# ---------------------------------------------------------------- operands of every kind, long-lived environments (oracle only)
+class CanonLog(list):
+    """hook log that records the operands in canonical form at the moment of the call"""
+
+    def append(self, ev):
+        list.append(self, tuple(ev[:2]) + tuple(XR.canon(x) for x in ev[2:]))
+
+
+def hook_ref(ib, iu, log):
+    """the reference evaluator of expr_ref with the documented interception rule: an intercepted operator application
+    goes to the hook with its two (one) operand values, its value is the hook's value; nothing else goes to the hook"""
+    import jinja2
+
+    class HookRef(XR.Ref):
+        def ev(self, e, data):
+            if e[0] == "B" and e[1] in ib:
+                a = self.ev(e[2], data)
+                b = self.ev(e[3], data)
+                log.append(("bin", X.BINOPS[e[1]], a, b))
+                r = XR.BIN[e[1]](a, b)
+                return r + 1000 if type(r) is int else r
+            if e[0] == "U" and e[1] in iu:
+                a = self.ev(e[2], data)
+                log.append(("un", X.UNOPS[e[1]], a))
+                r = -a if e[1] == "neg" else +a
+                return r + 1000 if type(r) is int else r
+            return XR.Ref.ev(self, e, data)
+
+    return HookRef(jinja2.Undefined, sandboxed=True)
+
+
+def run_wild(ctx):
+    """one long-lived environment per (kind, intercepted sets), many expressions each: the hook log and the value of the
+    n-th expression equal those of the reference (which has no memory); operands are real Python values of every kind"""
+    import warnings
+    warnings.simplefilter("ignore", SyntaxWarning)
+    g = XR.RGen(ctx.rng)
+    envs = {}
+    n = ctx.size(1500, 30000)
+    shown = 0
+    for i in range(n):
+        m = ctx.rng.choice([511, 0, ctx.rng.randrange(512), ctx.rng.randrange(512)])
+        ib = [BIN[j] for j in range(7) if m >> j & 1]
+        iu = [UN[j] for j in range(2) if m >> (7 + j) & 1]
+        kind = ENV_KINDS[i % len(ENV_KINDS)]
+        if (kind, m) not in envs:
+            log = CanonLog()
+            envs[(kind, m)] = (make_env(ib, iu, log, kind), log)
+        env, log = envs[(kind, m)]
+        e = g.num(ctx.rng.randint(1, 3)) if ctx.rng.random() < 0.7 else g.any(ctx.rng.randint(1, 3))
+        src = X.to_src(e)
+        seed = ctx.rng.randrange(1 << 30)
+        del log[:]
+        try:
+            if kind == "async":
+                t = env.from_string("{% set r = " + src + " %}")
+                real = ("ok", XR.canon(X.run_async(t.make_module_async(XR.wild_data(seed, [])) ).r))
+            else:
+                real = ("ok", XR.canon(env.compile_expression(src, undefined_to_none=False)(**XR.wild_data(seed, []))))
+        except RecursionError:
+            real = ("err", "RecursionError")
+        except Exception as ex:
+            real = ("err", type(ex).__name__)
+        rlog = list(log)
+        elog = CanonLog()
+        try:
+            exp = ("ok", XR.canon(hook_ref(ib, iu, elog).ev(e, XR.wild_data(seed, []))))
+        except RecursionError:
+            exp = ("err", "RecursionError")
+        except Exception as ex:
+            exp = ("err", type(ex).__name__)
+        ok = real == exp and rlog == list(elog)
+        if not ok and shown < 4:
+            shown += 1
+            ctx.reject({"kind": "wild", "expr": src, "tree": repr(e), "ib": ib, "iu": iu, "env": kind, "seed": seed, "real": repr((real, rlog))[:500], "expected": repr((exp, list(elog)))[:500]},
+                       f"{kind} sandbox intercepting {ib + iu}: {src} -> value {real!r:.200} hook log {rlog!r:.300}; expected value {exp!r:.200} hook log {list(elog)!r:.300}",
+                       "C20:wild:" + kind + ":" + src)
+        ctx.case(sample={"expr": src, "env": kind, "intercepted": ib + iu, "hook_calls": len(rlog)} if i % 173 == 0 else None,
+                 key=("wild", src, seed, m) if rlog else None)
+        ctx.count("wild_env_" + kind)
+        ctx.count("wild_hook_calls_" + ("0" if not rlog else "1" if len(rlog) == 1 else "2+"))
+        if ok:
+            ctx.validated()
+    ctx.extra["long_lived_environments"] = len(envs)
+
+
+# ---------------------------------------------------------------- histories (oracle only)
+def run_histories(ctx):
+    """state that survives a render: the environment's template cache, a loader shared by two environments with different
+    intercepted sets, a bytecode cache shared by them.  Every render in a history must give the value and the hook log
+    that a fresh environment of the same configuration gives for that template alone."""
+    import jinja2
+    g = X.EGen(ctx.rng, const_rich=True, arith=True, filters=False)
+    sync_kinds = [k for k in ENV_KINDS if k != "async"]
+
+    class MemCache(jinja2.BytecodeCache):
+        def __init__(self):
+            self.d = {}
+
+        def load_bytecode(self, b):
+            if b.key in self.d:
+                b.bytecode_from_string(self.d[b.key])
+
+        def dump_bytecode(self, b):
+            self.d[b.key] = b.bytecode_to_string()
+
+    def render(env, log, name, data):
+        del log[:]
+        try:
+            out = ("ok", env.get_template(name).render(**data))
+        except Exception as ex:
+            out = ("err", X.err_class(ex))
+        return out, X.canon_real_log(log) if not isinstance(log, CanonLog) else list(log)
+
+    known_shown = False
+    for j in range(ctx.size(120, 1500)):
+        files = {"t%d" % k: template_for(POSITIONS[(j + k) % 8], X.to_src(g.gen(ctx.rng.randint(1, 3), "int"))) for k in range(4)}
+        files["u"] = "{% include 't0' %}|{% include 't1' %}"
+        ms = [ctx.rng.choice([511, ctx.rng.randrange(512)]), ctx.rng.choice([0, ctx.rng.randrange(512)])]
+        sets = [([BIN[i] for i in range(7) if m >> i & 1], [UN[i] for i in range(2) if m >> (7 + i) & 1]) for m in ms]
+        mode = ("one-env", "shared-loader", "shared-bytecode-cache")[j % 3]
+        kind = sync_kinds[j % len(sync_kinds)]
+        ds = ctx.rng.randrange(1 << 30)
+        loader = jinja2.DictLoader(dict(files))
+        bc = MemCache()
+        actors = []
+        for ib, iu in (sets[:1] if mode == "one-env" else sets):
+            log = []
+            env = make_env(ib, iu, log, kind)
+            env.loader = loader
+            if mode == "shared-bytecode-cache":
+                env.bytecode_cache = bc
+            actors.append((env, log, ib, iu))
+        plan = [(ctx.rng.randrange(len(actors)), ctx.rng.choice(list(files))) for _ in range(ctx.rng.randint(3, 8))]
+        ok = True
+        for step, (a, name) in enumerate(plan):
+            env, log, ib, iu = actors[a]
+            got = render(env, log, name, X.make_data(random.Random(ds), []))
+            flog = []
+            fenv = make_env(ib, iu, flog, kind)
+            fenv.loader = jinja2.DictLoader(dict(files))
+            alone = render(fenv, flog, name, X.make_data(random.Random(ds), []))
+            if got != alone:
+                ok = False
+                if mode == "shared-bytecode-cache":
+                    if not known_shown:
+                        known_shown = True
+                        ctx.reject({"kind": "history", "mode": mode, "plan": plan[:step + 1], "files": files, "sets": sets},
+                                   "two sandboxes with different intercepted sets share a bytecode cache: the second runs the first one's code "
+                                   f"(template {name}: {got!r:.200} instead of {alone!r:.200})", "C20:shared-bytecode-cache")
+                else:
+                    ctx.reject({"kind": "history", "mode": mode, "env": kind, "plan": plan[:step + 1], "files": files, "sets": sets, "data_seed": ds,
+                                "after_history": repr(got)[:400], "alone": repr(alone)[:400]},
+                               f"{mode} ({kind}): template {name} gives {got!r:.250} after {plan[:step]!r} but {alone!r:.250} in a fresh environment",
+                               "C20:history:" + mode + ":" + files[name] if name != "u" else "C20:history:" + mode + ":u")
+                break
+        ctx.case(sample={"mode": mode, "env": kind, "plan": plan} if j % 37 == 0 else None, key=("history", mode, tuple(sorted(files.items())), tuple(plan)))
+        ctx.count("history_" + mode)
+        if ok or mode == "shared-bytecode-cache":
+            ctx.validated()
+
+
 def run(ctx):
     X.use_jinja()
     ctx.extra["rule"] = RULE
@@ -265,6 +428,8 @@ def run(ctx):
         if any(x.startswith("BAD") for x in o):
             raise RuntimeError("driver rejected: " + repr(o))
         one_case(ctx, e, ds, ib, iu, pos, *o)
+    run_wild(ctx)
+    run_histories(ctx)
     ctx.extra["subsets_covered"] = len({(tuple(ib), tuple(iu)) for _, _, ib, iu, _ in cases})
 
 
